@@ -117,6 +117,26 @@ theorem hasIf_spec (c : Caps) :
     hasIf c = false ↔ "if" ∉ c.futureKeywords ∧ "rego_v1_import" ∉ c.features ∧ "rego_v1" ∉ c.features := by
   simp [hasIf, hasRegoV1Feature, isOpaV1, and_assoc]
 
+/-- **keyword_gates_need_the_keyword**: a rule advising the `if` keyword is in `mustSkip` exactly when the target
+provides `if` through none of: future keyword `if`, feature `rego_v1_import`, feature `rego_v1` — in particular a
+target that has the keyword `in` but not `if` (OPA v0.34–v0.41) must skip them. For all capability sets. -/
+theorem keyword_gates_need_the_keyword (c : Caps) (r : String × String)
+    (hr : r ∈ [("bugs", "if-object-literal"), ("bugs", "if-empty-object"), ("custom", "one-liner-rule"), ("idiomatic", "use-if")]) :
+    r ∈ mustSkip c ↔ ("if" ∉ c.futureKeywords ∧ "rego_v1_import" ∉ c.features ∧ "rego_v1" ∉ c.features) := by
+  rw [← hasIf_spec]
+  simp only [List.mem_cons, List.not_mem_nil, or_false] at hr
+  rcases hr with rfl | rfl | rfl | rfl <;>
+    cases h : hasIf c <;> simp [mustSkip, gatingTable, h]
+
+example : ("idiomatic", "use-if") ∈ mustSkip { builtins := [], futureKeywords := ["in", "every"], features := [] } := by decide
+
+/-- removing a built-in with `capabilities.minus` puts exactly the rules that need it into `mustSkip` -/
+theorem minus_strings_count_skips (base : Caps) (plus : List String) (h : "strings.count" ∉ plus) :
+    ("idiomatic", "use-strings-count") ∈ mustSkip (resolve base ["strings.count"] plus) := by
+  have : hasStringsCount (resolve base ["strings.count"] plus) = false := by
+    simp [hasStringsCount, hasBuiltin, resolve, h]
+  simp [mustSkip, gatingTable, this]
+
 example : hasStringsCount (resolve { builtins := ["strings.count", "count"], futureKeywords := [], features := [] }
     ["strings.count"] []) = false := by decide
 
